@@ -32,6 +32,7 @@ import (
 
 // BackendHit is one request as an upstream received it.
 type BackendHit struct {
+	Proto   string // HTTP/1.1 | HTTP/2.0
 	Backend string
 	Method  string
 	URI     string // request-target as received
@@ -56,11 +57,16 @@ type Backend struct {
 
 const BackendMarker = "UPSTREAM-CONTENT-MARKER"
 
-func NewBackend(name string) *Backend {
+func NewBackend(name string) *Backend { return newBackend(name, false) }
+
+// NewTLSBackend is a recording upstream served over TLS that also offers HTTP/2.
+func NewTLSBackend(name string) *Backend { return newBackend(name, true) }
+
+func newBackend(name string, tlsH2 bool) *Backend {
 	b := &Backend{Name: name}
-	b.Server = httptest.NewServer(http.HandlerFunc(func(w http.ResponseWriter, r *http.Request) {
+	b.Server = httptest.NewUnstartedServer(http.HandlerFunc(func(w http.ResponseWriter, r *http.Request) {
 		body, _ := io.ReadAll(r.Body)
-		hit := BackendHit{Backend: name, Method: r.Method, URI: r.RequestURI, Path: r.URL.Path, Query: r.URL.RawQuery, Host: r.Host,
+		hit := BackendHit{Proto: r.Proto, Backend: name, Method: r.Method, URI: r.RequestURI, Path: r.URL.Path, Query: r.URL.RawQuery, Host: r.Host,
 			Header: r.Header.Clone(), Body: body, TE: r.TransferEncoding, CLen: r.ContentLength}
 		b.mu.Lock()
 		b.Hits = append(b.Hits, hit)
@@ -74,10 +80,18 @@ func NewBackend(name string) *Backend {
 		w.WriteHeader(200)
 		fmt.Fprintf(w, "%s from %s", BackendMarker, name)
 	}))
+	if tlsH2 {
+		b.Server.EnableHTTP2 = true
+		b.Server.StartTLS()
+	} else {
+		b.Server.Start()
+	}
 	return b
 }
 
-func (b *Backend) Addr() string { return strings.TrimPrefix(b.Server.URL, "http://") }
+func (b *Backend) Addr() string {
+	return strings.TrimPrefix(strings.TrimPrefix(b.Server.URL, "http://"), "https://")
+}
 
 func (b *Backend) Reset() {
 	b.mu.Lock()
@@ -191,6 +205,7 @@ func (f *FakeAuth) Take() []AuthCall {
 type ProxyOpts struct {
 	YAML          string   // upstream config document; {{backend:NAME}} is replaced by that backend's address
 	Backends      []string // names of recording backends to start
+	TLSBackends   []string // ... served over TLS with HTTP/2 on offer ({{backend:name}} is substituted the same way)
 	Cluster       string   // default "test"
 	DefaultGroups []string // UPSTREAM_DEFAULT_GROUPS
 	DefaultDoms   []string // UPSTREAM_DEFAULT_EMAIL_DOMAINS
@@ -273,6 +288,11 @@ func NewProxyEnv(o ProxyOpts) (*ProxyEnv, error) {
 	yaml := o.YAML
 	for _, n := range o.Backends {
 		b := NewBackend(n)
+		e.Backends[n] = b
+		yaml = strings.ReplaceAll(yaml, "{{backend:"+n+"}}", b.Addr())
+	}
+	for _, n := range o.TLSBackends {
+		b := NewTLSBackend(n)
 		e.Backends[n] = b
 		yaml = strings.ReplaceAll(yaml, "{{backend:"+n+"}}", b.Addr())
 	}
